@@ -34,6 +34,8 @@ func main() {
 		extract(os.Args[2], os.Args[3])
 	case "corr":
 		corr.Main(spec(), os.Args[2:])
+	case "guard":
+		guardChild()
 	case "stress":
 		stressChild(os.Args[2:])
 	case "race":
@@ -105,16 +107,18 @@ type pairState struct {
 }
 
 type sess struct {
-	inited  bool
-	p       params
-	logic   vcode.VCLogic
-	sms     *fakeSMS
-	hashes  []string // hash of accepted send k (index k-1)
-	codes   []string // code of accepted send k
-	pairs   map[[2]string]*pairState
-	hits    []corr.Hit
-	clockMs int64  // the fake clock reading
-	restore func() // uninstalls the fake clock
+	inited      bool
+	p           params
+	logic       vcode.VCLogic
+	sms         *fakeSMS
+	hashes      []string // hash of accepted send k (index k-1)
+	codes       []string // code of accepted send k
+	pairs       map[[2]string]*pairState
+	hits        []corr.Hit
+	guarded     []guardReply // answers of this case's nonce / cover / sample lines, computed in the watchdog child
+	guardedNext int
+	clockMs     int64  // the fake clock reading
+	restore     func() // uninstalls the fake clock
 }
 
 func (s *sess) hit(site, what, msg string) {
@@ -402,6 +406,12 @@ func (s *sess) lastSend(ps *pairState) string {
 }
 
 func (s *sess) send(a, p string) (out string) {
+	if !s.p.mock && s.p.codeLen > 0 { // the real sender's code generator is tried in the watchdog child first
+		if ok, hits := secgenReturns(s.p.codeLen); !ok {
+			s.hits = append(s.hits, hits...)
+			return "hang"
+		}
+	}
 	ps := s.pair(a, p)
 	calls := s.sms.calls
 	var hash string
@@ -838,6 +848,12 @@ func (s *sess) race(gw, nw, mw string) string {
 	if !ok1 || !ok2 || g < 1 || g > 64 || n < 1 || n > 1000000 || (mw != "0" && mw != "1") {
 		return "bad-op"
 	}
+	if mw == "0" { // the real sender's code generator (CodeLen 6) is tried in the watchdog child first
+		if ok, hits := secgenReturns(6); !ok {
+			s.hits = append(s.hits, hits...)
+			return "hang"
+		}
+	}
 	cmd := exec.Command(os.Args[0], "race", strconv.Itoa(g), strconv.Itoa(n), mw)
 	var out bytes.Buffer
 	cmd.Stdout, cmd.Stderr = &out, &out
@@ -1163,6 +1179,26 @@ func (s *sess) line(l string) string {
 		return s.stress(f[1], f[2])
 	case f[0] == "race" && len(f) == 4:
 		return s.race(f[1], f[2], f[3])
+	case f[0] == "nonce" || f[0] == "cover" || f[0] == "sample":
+		// executed in the watchdog child (guard.go); the answers were computed when the case started
+		if s.guardedNext < len(s.guarded) {
+			r := s.guarded[s.guardedNext]
+			s.guardedNext++
+			s.hits = append(s.hits, r.Hits...)
+			return r.Out
+		}
+		return s.nonceLine(f)
+	}
+	return "bad-op"
+}
+
+const guardedCases = 3000
+
+var guardSpawns int
+
+// nonceLine runs a nonce / cover / sample line in this process (used by the watchdog child).
+func (s *sess) nonceLine(f []string) string {
+	switch {
 	case f[0] == "nonce" && len(f) == 4:
 		return s.nonce(f[1], f[2], f[3])
 	case f[0] == "cover" && len(f) == 2:
@@ -1175,6 +1211,18 @@ func (s *sess) line(l string) string {
 
 func run(c corr.Case) corr.Result {
 	s := &sess{}
+	var gl []string
+	for _, l := range c.Lines {
+		if f := strings.Fields(l); len(f) > 0 && (f[0] == "nonce" || f[0] == "cover" || f[0] == "sample") {
+			gl = append(gl, l)
+		}
+	}
+	// The first guardedCases cases with such lines of a process run them in the watchdog child (a hang shows at once, on the fixed
+	// cases); later ones run in-process to keep the wide tiers fast — unless a hang was seen, then they are answered `hang` by the child path.
+	if len(gl) > 0 && (guardSpawns < guardedCases || isHung("nonce") || isHung("cover") || isHung("sample")) {
+		guardSpawns++
+		s.guarded = runGuarded(gl)
+	}
 	defer func() {
 		if s.restore != nil {
 			s.restore()
